@@ -9,7 +9,7 @@ from ..engine.match import Spec, loop_doms, require_return, residual
 from ..engine.repo import AnalysisError, dotted
 from ..engine.report import Check
 from ..engine.terms import C, conjuncts, lin_parts, show, subterms
-from .common import functions_mentioning, short
+from .common import functions_mentioning, only_called_from, short
 
 DT = "skepticoin.datatypes."
 SG = "skepticoin.signing."
@@ -268,23 +268,6 @@ def r07_4(ck: Check) -> None:
     ck.expect_count("R07.4", "DataMessage construction sites", sites, 3)
 
 
-def _only_called_from(ck: Check, fn: str, allowed: Set[str], depth: int) -> bool:
-    """fn is a helper introduced after the rule tables were written and every (name-matched) call site of it lies in an allowed
-    function or in another such helper: its events and values are analysed as part of those callers."""
-    if depth > 4 or not ck.walker.transparent(fn):
-        return False
-    name = fn.split(".")[-1]
-    callers = set()
-    for fi in ck.repo.all_functions():
-        if fi.qualname == fn:
-            continue
-        for n in ast.walk(fi.node):
-            if isinstance(n, ast.Call) and ((isinstance(n.func, ast.Attribute) and n.func.attr == name)
-                                            or (isinstance(n.func, ast.Name) and n.func.id == name)):
-                callers.add(fi.qualname)
-    return bool(callers) and all(c in allowed or _only_called_from(ck, c, allowed, depth + 1) for c in callers)
-
-
 def r07_5(ck: Check) -> None:
     ex = extractor(ck)
     for q, want_end, what in ((DT + "Transaction", "all", "the whole transaction"), (DT + "Block", "header", "exactly the header")):
@@ -364,7 +347,7 @@ def r07_5(ck: Check) -> None:
                 continue
             suppliers += 1
             construct = "%s supplies a pre-computed id to %s(...)" % (short(fn), target.split(".")[-1])
-            if fn in allowed or _only_called_from(ck, fn, allowed, 0):
+            if fn in allowed or only_called_from(ck, fn, allowed, 0):
                 ck.ok("R07.5", construct, "one of the three provenance-checked suppliers (or a helper only they call)", "%s:%d" % (m.path, n.lineno))
             else:
                 ck.violated("R07.5", construct, "a new site hands a pre-computed id to a constructor; only the two decoders (raw-span hash) and the "
